@@ -128,7 +128,11 @@ def piece_coq(p):
 
 def input_coq(i):
     if "net" in i:
-        return "(CNet [%s] %d)" % ("; ".join(piece_coq(p) for p in i["net"]), i.get("t", 0))
+        return "(CNet [%s] %d)" % ("; ".join(piece_coq(p) for p in i["net"]), i.get("at", i.get("t", 0)))
+    if "wrote" in i:
+        return "(CWrote %d)" % i["at"]
+    if "deadline" in i:
+        return "CDeadline"
     if "app" in i:
         return "(CApp [%s])" % "; ".join(c_fr(f) for f in i["app"])
     if "tick" in i:
